@@ -95,6 +95,9 @@ def e_Name(ctx, fr, path, node):
     if n == "result" and fr.spec and fr.result is not None:
         yield path, fr.result
         return
+    if fr.spec and n in path.ghost:
+        yield path, path.ghost[n]        # ghost variables of the contract (LOG, EXT) are readable in spec code
+        return
     g = ctx.global_lookup(fr.mi, n, path)
     if g is None and getattr(fr, "fallback_mi", None) is not None:
         g = ctx.global_lookup(fr.fallback_mi, n, path)
@@ -256,6 +259,13 @@ def obj_attr(ctx, fr, path, o, attr, node=None):
         ann = ci.all_fields().get(attr)
         if ann is None:
             ann = ctx.extern_field_ann(ci, attr)
+        if ann is None and ci.extern is not None:
+            nat = getattr(ci.extern, attr, None)
+            if nat is not None and callable(nat) and not isinstance(nat, property):
+                # method of an external class: called as an external function of (receiver, arguments)
+                owner = next((c for c in ci.mro() if c.extern is not None and attr in vars(c.extern)), ci)
+                groups.setdefault(("x", owner.qualname + "." + attr), (ExtFunc(owner.qualname + "." + attr), []))[1].append(ci)
+                continue
         groups.setdefault(("f", repr(ann)), (ann, []))[1].append(ci)
     if ctx.spec_mode and len(groups) > 1:
         # contract code is total on its stated domain: an attribute read in a spec is on an object that has it
@@ -279,6 +289,9 @@ def obj_attr(ctx, fr, path, o, attr, node=None):
 
 
 def _attr_case(ctx, fr, path, o, attr, key, what):
+    if key[0] == "x":
+        yield path, Bound(o, what)
+        return
     if key[0] == "m":
         m = what
         if m.kind == "property":
@@ -463,6 +476,13 @@ def binop(ctx, fr, p, op, a, b, node=None):
         return
     if isinstance(op, ast.Mod):
         raise Unsupported("% operator")
+    if isinstance(op, ast.Div):
+        # path / segment on an external path object: an external call like any other (result: a path of the same class)
+        for x in (a, b):
+            if isinstance(x, Val) and x.ann is not None and x.ann[0] == "obj" and x.ann[1].extern is not None:
+                from .calls import call_extern
+                yield from call_extern(ctx, fr, p, f"{x.ann[1].qualname}.__truediv__", [a, b], {}, node, result_ann=x.ann)
+                return
     raise Unsupported(f"binary op {type(op).__name__}")
 
 
